@@ -261,3 +261,34 @@ func (g *Gen) unionTwin(sv reflect.Value, f *FieldInfo, fv reflect.Value) bool {
 	fv.Set(uv)
 	return true
 }
+
+// PermuteOrdered reorders the entries of one ordered-by-user list of the tree (nothing else
+// changes) and returns its path, or "" when no such list holds two entries.
+func (g *Gen) PermuteOrdered(root ygot.GoStruct) string {
+	type site struct {
+		fv    reflect.Value
+		where string
+	}
+	var sites []site
+	for _, n := range g.C.Nodes(root) {
+		if n.Keyless {
+			continue
+		}
+		for _, f := range n.Info.Fields {
+			fv := n.V.Elem().Field(f.Idx)
+			if f.Kind == KOrdered && !fv.IsNil() && len(OrderedValues(fv)) >= 2 {
+				sites = append(sites, site{fv, PathString(extend(n.Path, f.Path))})
+			}
+		}
+	}
+	if len(sites) == 0 {
+		return ""
+	}
+	s := sites[g.Rng.Intn(len(sites))]
+	g.rebuildOrdered(s.fv, func(vals []reflect.Value) []reflect.Value {
+		out := append([]reflect.Value{}, vals...)
+		// a rotation always changes the order of >= 2 entries
+		return append(out[1:], out[0])
+	})
+	return s.where
+}
